@@ -57,6 +57,8 @@ fixed("F22", "C10", "pid-file-left", {}, "cce67c8",
       "remove_signal_handlers() ignored remove_cleanup and always unregistered the exit-time cleanup: a job that ended successfully kept its pid file")
 fixed("F23", "C01", "history-dependent", {"cyclic": True}, "aa0b22a",
       "HashComputer.compute set 'has_loop' instead of 'has_loops': identifiers computed inside a cycle were cached as context free, so for sealed cyclic configurations a node's identifier depended on the order of earlier identifier requests")
+fixed("F24", "C19", "cli-exception", {"exc": "JSONDecodeError"}, "920bb44",
+      "scheduler killed while prepare() was writing params.json left a truncated file: every job command with tags/filter stopped with JSONDecodeError")
 open_("K01", "C20", "repaired-job-relaunched", {"kind": "dep-root"},
       "after `deprecated list --fix [--cleanup]`, resubmitting a task whose own class was deprecated under another class name launches it again: the linked/moved folder keeps the marker, script and pid files named after the former class (olddleaf.done), the new job looks for <new name>.done",
       "repair is not small: fix_deprecated would have to rename or alias every per-job file (script, markers, pid, lock, logs) of the former task name, in link mode without touching the old folder; recorded instead")
